@@ -76,6 +76,9 @@ func (C10) Explore(x *kernel.Explorer, seed uint64) {
 					kind = "detok"
 				} else if r.Chance(1, 12) {
 					kind = "maint"
+				} else if nproc == 1 && r.Chance(1, 10) {
+					// maintenance window: tokens disabled (or removed), requests in between, enabled again
+					kind = "window"
 				}
 				pool := c10Pool[tt]
 				plan.Ops = append(plan.Ops, kernel.Op{ID: id, Proc: p, Kind: kind,
@@ -389,6 +392,47 @@ func (C10) Run(t *testing.T, plan *kernel.Plan, keepLog bool) *kernel.Result {
 								Input:  c10In{Kind: "tok", Key: fmt.Sprintf("%s|%d|%s", client, tt, value), Value: value},
 								Output: out})
 						}
+					case "window":
+						// While its record is disabled or removed a token is an unknown token: the owner gets the token
+						// itself back, without an error. (Single worker: nobody else is surprised by the window.)
+						action := []common.TokenAction{common.TokenDisable, common.TokenRemove}[int(op.Arg(2, 0))%2]
+						err, pv := Guard(func() error {
+							return store.VisitMetadata(func(int, common.TokenMetadata) (common.TokenAction, error) { return action, nil })
+						})
+						if pv != nil {
+							w.Violate("C10", "no-panic", site+"/maintenance", fmt.Sprint(pv))
+						} else if err != nil {
+							w.Violate("C10", "maintenance-succeeds", storeName, err.Error())
+						} else if totalFired(w) == firedBefore {
+							for k, is := range tokens {
+								if k >= 3 || is.tt != tt {
+									continue
+								}
+								var back []byte
+								ictx := common.TokenContext{ClientID: []byte(is.ctx)}
+								derr, dpv := Guard(func() error { var e error; back, e = dt.Detokenize([]byte(is.token), ictx, setting); return e })
+								if dpv != nil {
+									w.Violate("C10", "no-panic", site+"/detokenize", fmt.Sprint(dpv))
+								} else if totalFired(w) == firedBefore && (derr != nil || string(back) != is.token) {
+									w.Violate("C10", "disabled-token-is-an-unknown-token", site, fmt.Sprintf("token %q of %s while %s: detokenize gives %q (err=%v), want the token itself", is.token, is.ctx, map[common.TokenAction]string{common.TokenDisable: "disabled", common.TokenRemove: "removed"}[action], back, derr))
+								}
+							}
+							w.Probe("maintenance-window")
+						}
+						if action == common.TokenRemove {
+							tokens = nil // gone for good
+							hist = nil
+						} else {
+							err, pv := Guard(func() error {
+								return store.VisitMetadata(func(int, common.TokenMetadata) (common.TokenAction, error) { return common.TokenEnable, nil })
+							})
+							if pv != nil {
+								w.Violate("C10", "no-panic", site+"/maintenance", fmt.Sprint(pv))
+							} else if err != nil {
+								w.Violate("C10", "maintenance-succeeds", storeName, err.Error())
+							}
+						}
+						w.EndOp(proc, "window")
 					case "maint":
 						// maintenance between requests: every token is disabled and
 						// enabled again in one go (no request sees the disabled state);
